@@ -325,7 +325,7 @@ def rule_align_parse(prog, rep, tier, anchor="parse.function"):
     its suffix."""
     from sa.consteval import Folder
     folder = Folder(prog)
-    fi = prog.fn(anchor)
+    fi = prog.inl(prog.fn(anchor))  # aliases of the signature object / accessor partials written out
 
     def pairs_of(e):
         """the constant ((args attr, defaults attr), ...) table an expression denotes (a display or a module constant)"""
@@ -333,6 +333,8 @@ def rule_align_parse(prog, rep, tier, anchor="parse.function"):
         out = []
         for a in alts:
             v = folder.fold(a, {}, a)
+            if isinstance(v, (set, frozenset)):
+                v = sorted(v, key=repr)  # the pairing does not depend on the order of the table (DET-1 judges that)
             if isinstance(v, (tuple, list)) and v and all(isinstance(x, (tuple, list)) and len(x) == 2 and all(isinstance(y, str) for y in x) for x in v):
                 out.append(tuple(tuple(x) for x in v))
         return out
